@@ -133,6 +133,10 @@ func c16Invariants(k c16Case, base, res vlib.Resp) *vlib.Failure {
 		return vlib.Failf("the middleware called WriteHeader %d times on one preflight response (a writer that keeps the last call would send something else)", res.ExtraWrites+1)
 	}
 	must, why := c16MustFail(k.Cfg, k.Req)
+	if len(res.Hdr["Access-Control-Allow-Origin"]) == 0 && !must {
+		// without Allow-Origin no browser takes the preflight for a success, whatever the status says
+		must, why = true, "no Access-Control-Allow-Origin in the answer"
+	}
 	if res.Status/100 != 2 || must {
 		if hasAC != "" {
 			return vlib.Failf("failing preflight (status %d, %s) carries %s: %q", res.Status, why, hasAC, res.Hdr[hasAC])
@@ -181,7 +185,7 @@ func c16Invariants(k c16Case, base, res vlib.Resp) *vlib.Failure {
 
 func c16Alphabet() (origins, acrms, acrhs, acrpns [][]string) {
 	origins = [][]string{{"https://a.example"}, {"https://x.a.example"}, {"https://denied.example"}, {"https://a.example:8080"}, {"garbage"}, {"https://a.example/"}, {""}, {"null"}, {"https://a.example", "https://denied.example"}, {"https://denied.example", "https://a.example"}}
-	acrms = [][]string{{"GET"}, {"PUT"}, {"put"}, {"DELETE"}, {"@@"}, {""}, {"PUT", "DELETE"}, {"HEAD"}, {"PATCH"}}
+	acrms = [][]string{{"GET"}, {"PUT"}, {"put"}, {"DELETE"}, {"@@"}, {""}, {"PUT", "DELETE"}, {"HEAD"}, {"PATCH"}, {"TRACE"}, {"connect"}, {"OPTIONS"}}
 	acrhs = [][]string{nil, {}, {"x-a"}, {"x-a,x-b"}, {"x-a,x-z"}, {"x-z"}, {"x-b,x-a"}, {"x-a", "x-b"}, {"x-b", "x-a"}, {"\x00"}, {"X-A"}, {"authorization"}, {"authorization,x-a"}, {" x-a ,x-b"}, {",,x-a"}, {strings.Repeat(",", 17)}, {"x-a,x-a"}}
 	acrpns = [][]string{nil, {"true"}, {"TRUE"}, {"true", "false"}}
 	return
